@@ -281,8 +281,8 @@ def inclusion_cases(ck, n):
         elems_x = strings_only_inner(ck.rng, POOL[t])
         inner_x = G.chain(elems_x, ['union'] * (len(elems_x) - 1))
         ta, tx = G.t_eos(inner_a), G.t_eos(inner_x)
-        if '\t' in ta or '\t' in tx:
-            continue
+        if '\t' in ta or '\t' in tx or '"s": ""' in json.dumps(inner_a) or '"s": ""' in json.dumps(inner_x):
+            continue                                    # tabs are not portable in the text form; empty strings are degenerate (no character at all)
         nsz = ck.rng.randint(1, 9)
         expr = {'plain': '(Inc)', 'includes': '(INCLUDES Inc)', 'from': '(FROM (Inc))',
                 'size-after': '(Inc)(SIZE (1..%d))' % nsz, 'size-before': '(SIZE (1..%d))(Inc)' % nsz,
